@@ -236,7 +236,7 @@ fn sections(cfg: &Cfg) -> Vec<(Sect, u64)> {
         (Sect::Bins, if q { 400 } else { 20_000 }),
         (Sect::Chains, if q { 4_000 } else { 300_000 }),
         (Sect::Long, nn * var),
-        (Sect::Lines, all_unary(3).len() as u64 * if q { 40 } else { 400 }),
+        (Sect::Lines, all_unary(3).len() as u64 * if q { 160 } else { 1200 }),
     ]
 }
 
@@ -276,7 +276,7 @@ fn dispatch<T: Scalar>(cfg: &Cfg, sect: Sect, j: u64, rng: &mut Rng, out: &mut T
         }
         Sect::Lines => {
             let u = all_unary(3).len() as u64;
-            let n = rng.usize(20, 64);
+            let n = if rng.chance(2, 3) { rng.usize(33, 64) } else { rng.usize(20, 64) };
             let k = catalogue::bump_n(all_unary(n)[(j % u) as usize], n);
             let start = *rng.pick(&[100.0, 1000.0, 0.7, 12345.6]);
             let step = *rng.pick(&[1.0 / 3.0, -1.0 / 3.0, 0.1, -0.7, 1e-3, 0.0, 2.3]);
